@@ -97,22 +97,16 @@ static int run_session(xmp_context a, xmp_context b, const char *path, int rate,
 		}
 	}
 
-	/* first frame gives the typical frame size used to scale request sizes */
+	/* The reference stream is rendered lazily: A has always rendered exactly the frames B
+	 * has fetched so far (one more while the oracle looks at the frame B is about to fetch),
+	 * so that a position-control call in the script can be applied to both contexts at the
+	 * same frame boundary. */
 	free_frames();
-	ret = xmp_play_frame(a);
-	if (ret < 0) {
-		a_ended = 1;
+	xmp_get_frame_info(a, &fi);
+	framesz = fi.frame_time > 0 ? (int)((double)rate * fi.frame_time / 1000000.0) : 0;
+	framesz *= ((fmt & XMP_FORMAT_MONO) ? 1 : 2) * ((fmt & XMP_FORMAT_8BIT) ? 1 : 2);
+	if (framesz < 16 || framesz > XMP_MAX_FRAMESIZE * 4)
 		framesz = 64;
-	} else {
-		xmp_get_frame_info(a, &fi);
-		frames[0].data = (unsigned char *)malloc(fi.buffer_size + 1);
-		memcpy(frames[0].data, fi.buffer, fi.buffer_size);
-		frames[0].size = fi.buffer_size;
-		frames[0].lc = fi.loop_count;
-		nframes = 1;
-		have = fi.buffer_size;
-		framesz = fi.buffer_size;
-	}
 
 	/* build the script if not given */
 	if (nops < 0) {
@@ -132,6 +126,13 @@ static int run_session(xmp_context a, xmp_context b, const char *path, int rate,
 				ops[nops++].size = 0;
 				continue;
 			}
+			if (vrng_chance(12)) {
+				/* position control between buffer calls: 3 restart, 4 set_position,
+				 * 5 next, 6 prev, 7 seek_time, 8 set_row */
+				ops[nops].kind = vrng_range(3, 8);
+				ops[nops++].size = (int)vrng_below(1 << 20);
+				continue;
+			}
 			ops[nops].kind = 0;
 			ops[nops].size = gen_size(framesz);
 			if (ops[nops].size > 0) {
@@ -142,63 +143,93 @@ static int run_session(xmp_context a, xmp_context b, const char *path, int rate,
 			nops++;
 		}
 	}
-	for (i = 0; i < nops; i++) {
-		if (ops[i].kind == 0 && ops[i].size > 0)
-			need_bytes += ops[i].size;
-		if (ops[i].kind == 1)
-			resets++;
-	}
-
-	/* render A far enough: every byte B can ask for, plus one frame per reset, plus slack */
-	idx_bound = MAXFRAMES - 1;
-	while (!a_ended && nframes < idx_bound) {
-		long slack = (long)(resets + 3) * (framesz + 4096);
-		if (have >= need_bytes + slack)
-			break;
-		ret = xmp_play_frame(a);
-		if (ret < 0) {
-			a_ended = 1;
-			break;
-		}
-		xmp_get_frame_info(a, &fi);
-		frames[nframes].data = (unsigned char *)malloc(fi.buffer_size + 1);
-		memcpy(frames[nframes].data, fi.buffer, fi.buffer_size);
-		frames[nframes].size = fi.buffer_size;
-		frames[nframes].lc = fi.loop_count;
-		have += fi.buffer_size;
-		nframes++;
-	}
+	(void)need_bytes; (void)have; (void)resets; (void)idx_bound;
 
 	printf("begin %d %s rate=%d fmt=%d near_end=%d seed=%llu session=%d\n", loop, path, rate, fmt, near_end,
 	       (unsigned long long)seed, session);
-	for (i = 0; i < nframes; i++) {
-		printf("frame %d ", frames[i].lc);
-		put_hex(stdout, frames[i].data, frames[i].size);
-		printf("\n");
-		hexbytes += frames[i].size;
-	}
-	if (a_ended)
-		printf("endframe\n");
 
 	/* run the script on B.  The direct oracle tracks nextf (index of the next
-	 * frame B has to fetch), the current frame and the offset in it. */
+	 * frame B has to fetch), the current frame and the offset in it.  The op lines are
+	 * buffered and printed after the frame stream. */
 	{
 		struct context_data *ctx = (struct context_data *)b;
 		int nextf = 0, cur = -1, off = 0, cursize = 0;
 		int stopped_at = -1;	/* frames >= this index are END */
 		int ended = 0;
+		char *obuf = NULL;
+		size_t olen = 0;
+		FILE *o = open_memstream(&obuf, &olen);
+
+#define ENSURE(k) do { \
+	while (!a_ended && nframes <= (k) && nframes < MAXFRAMES - 1) { \
+		if (xmp_play_frame(a) < 0) { a_ended = 1; break; } \
+		xmp_get_frame_info(a, &fi); \
+		frames[nframes].data = (unsigned char *)malloc(fi.buffer_size + 1); \
+		memcpy(frames[nframes].data, fi.buffer, fi.buffer_size); \
+		frames[nframes].size = fi.buffer_size; \
+		frames[nframes].lc = fi.loop_count; \
+		nframes++; \
+	} } while (0)
 
 		for (i = 0; i < nops; i++) {
 			if (ops[i].kind == 1) {
 				xmp_play_buffer(b, NULL, 0, 0);
-				printf("reset\n");
+				fprintf(o, "reset\n");
 				cursize = off = 0;	/* carry-over dropped */
 				continue;
 			}
 			if (ops[i].kind == 2) {
 				xmp_stop_module(b);
-				printf("stop\n");
+				fprintf(o, "stop\n");
 				stopped_at = nextf;
+				continue;
+			}
+			if (ops[i].kind >= 3) {
+				/* position control: applied to both contexts at the same frame boundary (A has
+				 * rendered exactly the nextf frames B fetched); the frame in flight in B must
+				 * still be delivered completely */
+				struct xmp_module_info mi;
+				int arg = ops[i].size, ra = 0, rb = 0;
+				if (stopped_at >= 0 || a_ended || ended || nframes != nextf || nextf == 0) {
+					fprintf(o, "ctl skipped\n");
+					continue;
+				}
+				xmp_get_module_info(a, &mi);
+				switch (ops[i].kind) {
+				case 3:
+					xmp_restart_module(a);
+					xmp_restart_module(b);
+					break;
+				case 4:
+					arg = mi.mod->len > 0 ? arg % mi.mod->len : 0;
+					ra = xmp_set_position(a, arg);
+					rb = xmp_set_position(b, arg);
+					break;
+				case 5:
+					ra = xmp_next_position(a);
+					rb = xmp_next_position(b);
+					break;
+				case 6:
+					ra = xmp_prev_position(a);
+					rb = xmp_prev_position(b);
+					break;
+				case 7:
+					arg = arg % (mi.seq_data[0].duration > 0 ? mi.seq_data[0].duration + 1000 : 1000);
+					ra = xmp_seek_time(a, arg);
+					rb = xmp_seek_time(b, arg);
+					break;
+				default:
+					arg = arg % 64;
+					ra = xmp_set_row(a, arg);
+					rb = xmp_set_row(b, arg);
+					break;
+				}
+				fprintf(o, "ctl %d %d at=%d\n", ops[i].kind, arg, nextf);
+				if (ra != rb) {
+					fprintf(o, "oracle_fail op %d: control call %d(%d) returned %d on the frame context, %d on the buffer context\n",
+						i, ops[i].kind, arg, ra, rb);
+					fails++;
+				}
 				continue;
 			}
 			{
@@ -208,18 +239,20 @@ static int run_session(xmp_context a, xmp_context b, const char *path, int rate,
 				out = (unsigned char *)malloc(asz + 16);
 				memset(out, 0xAA, asz + 16);
 				ret = xmp_play_buffer(b, out, size, loop);
-				printf("call %d\n", size);
-				printf("expect %d %d %d ", ret, ctx->p.buffer_data.consumed,
+				fprintf(o, "call %d\n", size);
+				fprintf(o, "expect %d %d %d ", ret, ctx->p.buffer_data.consumed,
 				       ctx->p.buffer_data.in_size);
-				put_hex(stdout, out, ret < 0 ? 0 : asz);
-				printf("\n");
+				put_hex(o, out, ret < 0 ? 0 : asz);
+				fprintf(o, "\n");
 
 				/* ---- direct oracle: bytes must equal A's stream ---- */
 				while (k < asz) {
 					if (off == cursize) {	/* B must fetch frame nextf */
 						int term;
+						if (!(stopped_at >= 0 && nextf >= stopped_at))
+							ENSURE(nextf);
 						if (nextf >= nframes && !a_ended && !(stopped_at >= 0 && nextf >= stopped_at)) {
-							printf("oracle_skip reference stream exhausted\n");
+							fprintf(o, "oracle_skip reference stream exhausted\n");
 							skip = 1;
 							break;
 						}
@@ -239,7 +272,7 @@ static int run_session(xmp_context a, xmp_context b, const char *path, int rate,
 						continue;
 					}
 					if (out[k] != frames[cur].data[off]) {
-						printf("oracle_fail call %d: byte %d differs from frame %d offset %d (got %02x want %02x)\n",
+						fprintf(o, "oracle_fail call %d: byte %d differs from frame %d offset %d (got %02x want %02x)\n",
 						       i, k, cur, off, out[k], frames[cur].data[off]);
 						fails++;
 						skip = 1;
@@ -251,7 +284,7 @@ static int run_session(xmp_context a, xmp_context b, const char *path, int rate,
 				if (!skip && want_ret == 0) {
 					for (; k < asz; k++) {
 						if (out[k] != 0) {
-							printf("oracle_fail call %d: byte %d after the end is %02x, expected zero fill\n",
+							fprintf(o, "oracle_fail call %d: byte %d after the end is %02x, expected zero fill\n",
 							       i, k, out[k]);
 							fails++;
 							break;
@@ -259,21 +292,31 @@ static int run_session(xmp_context a, xmp_context b, const char *path, int rate,
 					}
 				}
 				if (!skip && ret != want_ret) {
-					printf("oracle_fail call %d: size %d returned %d, expected %d\n", i, size, ret, want_ret);
+					fprintf(o, "oracle_fail call %d: size %d returned %d, expected %d\n", i, size, ret, want_ret);
 					fails++;
 				}
 				if (out[asz] != 0xAA || out[asz + 1] != 0xAA) {
-					printf("oracle_fail call %d: wrote past the requested size\n", i);
+					fprintf(o, "oracle_fail call %d: wrote past the requested size\n", i);
 					fails++;
 				}
 				if (ret < 0 && asz > 0 && out[0] != 0xAA) {
-					printf("oracle_fail call %d: returned %d but wrote to the buffer\n", i, ret);
+					fprintf(o, "oracle_fail call %d: returned %d but wrote to the buffer\n", i, ret);
 					fails++;
 				}
-				(void)ended;
 				free(out);
 			}
 		}
+		fclose(o);
+		for (i = 0; i < nframes; i++) {
+			printf("frame %d ", frames[i].lc);
+			put_hex(stdout, frames[i].data, frames[i].size);
+			printf("\n");
+			hexbytes += frames[i].size;
+		}
+		if (a_ended)
+			printf("endframe\n");
+		fputs(obuf ? obuf : "", stdout);
+		free(obuf);
 	}
 	printf("end\n");
 	free_frames();
